@@ -53,6 +53,10 @@ pub fn fuse_begin(armed: bool, kind: u8, at: u64) {
     FUSE_COUNTS.with(|c| *c.borrow_mut() = [0; 8]);
     FUSE_FIRED.with(|c| c.set(false));
 }
+/// the armed call returned (or unwound): no further injection, e.g. while the harness drops results
+pub fn fuse_disarm() {
+    FUSE_ARMED.with(|c| c.set(false));
+}
 /// stop counting; returns (per-kind counts, fired)
 pub fn fuse_end() -> ([u64; 8], bool) {
     FUSE_COUNTING.with(|c| c.set(false));
